@@ -5,14 +5,17 @@ A  theorems in Props/C35 over the guard-chain model (Model/Validate.lean): a gua
    the outcome and it is an exception (guard_fires_rejected); every guarded invalid class of the
    statement is rejected whatever the other parameters are (invalid_rejected); rejections are
    ValueError/NotImplementedError unless a keyword is foreign to the method (rejection_clean);
-   return_shape; and the NEGATION of the full statement: the discrete methods have no guard on
-   `mutation_rate > 0` (discrete_nonpositive_rate_unguarded, C35_invalid_statement_false).
+   return_shape; kernel preconditions under the callers' guarantees; the full statement
+   (C35_invalid_statement_holds, since /repo a8b199f added the rate guard of the discrete methods;
+   the pre-fix chain is kept as the counter-example prefix_discrete_nonpositive_rate_unguarded).
 B  the model's `outcome` against the real `tsdate.date` over the deviation lattice: every single and
    pairwise deviation from a valid call (parameters x input facts), random deeper combinations;
    exception type and guard site compared.
 C  oracle: pathological but valid inputs x methods; any exception that is not a documented
-   ValueError/NotImplementedError is classified by (type, site, assertion text).  Known: F5
-   `AssertionError: Use fewer rescaling intervals`; non-positive rate accepted by discrete methods.
+   ValueError/NotImplementedError is classified by (type, site, assertion text, class of input).
+   F5 (`AssertionError: Use fewer rescaling intervals`, repaired by fa21a50) and "non-positive rate
+   accepted by the discrete methods" (repaired by a8b199f) are unlisted again: a regression is a
+   VIOLATION.  Known: extreme rates (>=1e200 / <=1e-200) and max_shape=1+1e-7 with variational_gamma.
 """
 
 import itertools
@@ -25,7 +28,7 @@ from .. import validate_corr as vc
 from ..common import Result, Violation
 
 META = dict(
-    level='Lean theorems over a model of the validation guard chain of date()/variational_gamma/inside_outside/maximization/EstimationMethod.__init__/run (19 abstract parameter classes x 4 input facts, all combinations): a firing guard always yields an exception; each guarded invalid class of the statement is rejected regardless of the other parameters; rejections are ValueError/NotImplementedError unless a keyword is foreign to the method; the result tuple has the documented shape. The full statement is FALSE of the code and its negation is proved on the model and reproduced: the discrete methods never test mutation_rate > 0. Model tied to the real code on all single and pairwise deviations from a valid call (exception type and site). Partial: "valid inputs never crash" is a whole-program statement and is only searched (pathological valid inputs x methods), not proved.',
+    level='Lean theorems over a model of the validation guard chain of date()/variational_gamma/inside_outside/maximization/EstimationMethod.__init__/run (19 abstract parameter classes x 4 input facts, all combinations): a firing guard always yields an exception; each guarded invalid class of the statement is rejected regardless of the other parameters; rejections are ValueError/NotImplementedError unless a keyword is foreign to the method; the result tuple has the documented shape; the values reaching the kernels satisfy the asserts of those kernels; the full statement over the classes of the model holds (the chain before /repo a8b199f, which lacked the rate guard of the discrete methods, is kept as a proved counter-example). Model tied to the real code on all single and pairwise deviations from a valid call (exception type and site). Partial: "valid inputs never crash" is a whole-program statement and is only searched (pathological valid inputs x methods), not proved.',
     note='Lean kernel + {propext, Classical.choice, Quot.sound}; correspondence exhaustive over single and pairwise deviations, sampled beyond; concrete representatives per abstract class; exception sites matched by message text',
     technique='first-firing-guard model + membership lemmas; lattice correspondence; exception-classifying search',
     ref='§3 C35',
@@ -41,10 +44,26 @@ ASSUMPTIONS = [
 DOCUMENTED = ("ValueError", "NotImplementedError")
 
 
-def classify_internal(name, msg, where):
-    """kind for an exception that is not a documented rejection"""
+def _num(v):
+    try:
+        return float(v)
+    except (TypeError, ValueError):
+        return None
+
+
+def classify_internal(name, msg, where, kw=None):
+    """kind for an exception that is not a documented rejection: (mechanism, class of input)"""
+    kw = kw or {}
+    rate = _num(kw.get("mutation_rate"))
+    ms = _num(kw.get("max_shape"))
     if name == "AssertionError" and "Use fewer rescaling intervals" in msg:
-        return "rescaling-intervals-assertion"
+        return "rescaling-intervals-assertion"          # F5, repaired by /repo fa21a50: unlisted again
+    if name == "AssertionError" and where == "variational.py:posterior_damping" and rate is not None and rate >= 1e150:
+        return "huge-rate-damping-assertion"
+    if name == "ZeroDivisionError" and where.startswith("variational.py") and rate is not None and 0 < rate <= 1e-150:
+        return "tiny-rate-zerodivision"
+    if name == "LibraryError" and "mutation's time must be" in msg and ms is not None and 1 < ms < 1.001:
+        return "max-shape-near-1-library-error"
     text = msg.strip().split("\n")[0][:40].strip().replace(" ", "-") if msg.strip() else "no-message"
     return f"internal-{name}-{where}-{text}"
 
@@ -93,7 +112,7 @@ def run_cases(ctx, res, cases, inputs, stats, rng):
         # anything that is not a documented rejection / a TypeError for a foreign keyword / a result is internal
         # (a TypeError is clean only when it is Python's own "unexpected keyword argument")
         if rname not in DOCUMENTED + ("ok", "TypeError") or real == "TypeError:?":
-            kind = classify_internal(rname, detail.get("msg", ""), detail.get("where", "?"))
+            kind = classify_internal(rname, detail.get("msg", ""), detail.get("where", "?"), kw)
             res.violations.append(Violation(kind, f"date(method={mname}, {vc.jsonable_kw(kw)}) raised {rname}: "
                                                   f"{detail.get('msg', '')[:100]} at {detail.get('where')}", replay))
             stats["internal"][kind] = stats["internal"].get(kind, 0) + 1
@@ -189,7 +208,7 @@ def oracle(ctx, res, stats, rng, n):
             res.nontrivial.add(common.canon_key(["oracle", what, method, info.get("seed"), scale]))
             if name in DOCUMENTED or name == "ok":
                 continue
-            kind = classify_internal(name, detail.get("msg", ""), detail.get("where", "?"))
+            kind = classify_internal(name, detail.get("msg", ""), detail.get("where", "?"), kw)
             stats["internal"][kind] = stats["internal"].get(kind, 0) + 1
             res.violations.append(Violation(
                 kind, f"{method}(mutation_rate={kw['mutation_rate']:.3g}) on a {what} input "
@@ -256,18 +275,51 @@ def run(ctx):
 
 
 def targeted(ctx, res, stats):
-    """Concrete reproductions of the findings the theorems point at (kept small and deterministic)."""
+    """Concrete probes of the findings the theorems / earlier runs point at (small and deterministic):
+    repaired ones must stay repaired (else an unlisted kind → VIOLATION), open ones are classified."""
     import msprime
     ts0 = msprime.sim_ancestry(4, sequence_length=1e4, recombination_rate=1e-5, population_size=1e3, random_seed=3)
+    ts1 = msprime.sim_mutations(ts0, rate=1e-5, random_seed=3)
+    tgt = stats.setdefault("targeted", {})
+    # (a) repaired by a8b199f: non-positive rates with the discrete methods
     for method in ("inside_outside", "maximization"):
-        real, detail = vc.call_date(ts0, method, dict(mutation_rate=0, population_size=1e3))
+        for ts, rate in ((ts0, 0), (ts0, 0.0), (ts1, -1e-8), (ts1, float("nan"))):
+            kw = dict(mutation_rate=rate, population_size=1e3)
+            real, detail = vc.call_date(ts, method, kw)
+            res.evaluations += 1
+            tgt[f"{method} mutation_rate={rate!r} muts={ts.num_mutations}"] = real
+            rp = dict(kind="targeted", method=method, kw=vc.jsonable_kw(kw), ts=gen.ts_to_jsonable(ts))
+            if real.startswith("ok:"):
+                res.violations.append(Violation(
+                    "discrete-nonpositive-rate-accepted",
+                    f"{method}(mutation_rate={rate!r}) returned a dated tree sequence instead of raising ValueError", rp))
+            elif real != "ValueError:rateNotPositive":
+                res.corr_failures.append(Violation(
+                    "validate-model-differs",
+                    f"{method}(mutation_rate={rate!r}): model ValueError:rateNotPositive, real {real}", rp, stage="B"))
+    # (b) extreme but valid parameter values of variational_gamma
+    probes = [dict(mutation_rate=1e200), dict(mutation_rate=1e300, rescaling_intervals=0), dict(mutation_rate=float("inf")),
+              dict(mutation_rate=1e-200), dict(mutation_rate=1e-300, rescaling_intervals=0),
+              dict(mutation_rate=1e100), dict(mutation_rate=1e-100),
+              dict(mutation_rate=1e-5, max_shape=1.0000001, rescaling_intervals=0),
+              dict(mutation_rate=1e-5, max_shape=1.0000001), dict(mutation_rate=1e-5, max_shape=1.01, rescaling_intervals=0)]
+    for kw in probes:
+        real, detail = vc.call_date(ts1, "variational_gamma", kw)
         res.evaluations += 1
-        stats.setdefault("targeted", {})[f"{method} mutation_rate=0 no mutations"] = real
-        if real.startswith("ok:"):
-            res.violations.append(Violation(
-                "discrete-nonpositive-rate-accepted",
-                f"{method}(mutation_rate=0) on an input without mutations returned a dated tree sequence instead of raising ValueError",
-                dict(kind="targeted", method=method, kw=dict(mutation_rate=0, population_size=1e3), ts=gen.ts_to_jsonable(ts0))))
+        tgt["variational_gamma " + json_kw(kw)] = real
+        res.nontrivial.add(common.canon_key(["targeted", json_kw(kw)]))
+        name = real.split(":")[0]
+        if name in DOCUMENTED or name == "ok":
+            continue
+        kind = classify_internal(name, detail.get("msg", ""), detail.get("where", "?"), kw)
+        stats["internal"][kind] = stats["internal"].get(kind, 0) + 1
+        res.violations.append(Violation(
+            kind, f"variational_gamma({json_kw(kw)}) raised {name}: {detail.get('msg', '')[:80]!r} at {detail.get('where')}",
+            dict(kind="targeted", method="variational_gamma", kw=vc.jsonable_kw(kw), ts=gen.ts_to_jsonable(ts1))))
+
+
+def json_kw(kw):
+    return ", ".join(f"{k}={v!r}" for k, v in kw.items())
 
 
 def search(ctx):
